@@ -260,10 +260,10 @@ def is_date_format(input_date_str: str, date_format: str) -> typing.Union[None, 
         return False
 # ******************************************************************************
 def is_date_yymm(input_date_str: str) -> typing.Union[None, datetime.datetime, bool]:
-    return is_date_to_format(input_date_str, "%y%m")
+    return is_date_format(input_date_str, "%y%m")
 # ******************************************************************************
 def is_date_mmyy(input_date_str: str) -> typing.Union[None, datetime.datetime, bool]:
-    return is_date_to_format(input_date_str, "%m%y")
+    return is_date_format(input_date_str, "%m%y")
 # ******************************************************************************
 def first_day_of_yymm(input_date_str: str) -> typing.Union[None, datetime.datetime, bool]:
     return is_date_yymm(input_date_str)
